@@ -1,6 +1,8 @@
 #pragma once
 #include <string>
 #include <memory>
+#include <vector>
+#include <algorithm>
 
 #include "type.h"
 
@@ -83,6 +85,36 @@ namespace sqf::runtime
         virtual ::sqf::runtime::type type() const = 0;
 
         virtual std::size_t hash() const = 0;
+
+        /// <summary>
+        /// Appends the values this value directly contains (elements of an array,
+        /// keys and values of a hashmap). Values that are no containers have none.
+        /// </summary>
+        virtual void children(std::vector<std::shared_ptr<data>>& out) const {}
+
+        /// <summary>
+        /// Tells whether target can be reached from this value by following
+        /// container children (arrays and hashmaps alike).
+        /// </summary>
+        bool reaches(const data* target) const
+        {
+            std::vector<const data*> visited;
+            return reaches_(target, visited);
+        }
+    private:
+        bool reaches_(const data* target, std::vector<const data*>& visited) const
+        {
+            std::vector<std::shared_ptr<data>> direct;
+            children(direct);
+            for (auto& child : direct)
+            {
+                if (child.get() == target) { return true; }
+                if (std::find(visited.begin(), visited.end(), child.get()) != visited.end()) { continue; }
+                visited.push_back(child.get());
+                if (child->reaches_(target, visited)) { return true; }
+            }
+            return false;
+        }
     };
 }
 namespace std
